@@ -1,4 +1,5 @@
 P = dict(
+    features={"quick": [None, "fixed_point"], "thorough": [None, "fixed_point"]},
     bin="egv_c06", trace="Trace_C06", level="model_checking",
     mc=[dict(module="MC_C06", quick_cfg="MC_C06.cfg", thorough_cfg="MC_C06_thorough.cfg", workers=8),
         dict(module="MC_C06", quick_cfg="MC_C06_control.cfg", expect_violation=True, coverage=False, workers=8)],
